@@ -137,7 +137,8 @@ def c02(tier):
     tables = {"name": dict(n=2, m=0), "prefix": dict(n=0, m=0, e=0), "datatype": dict(n=3, m=3)}
     m.P = {"tables": tables}
     st.append(U("stmt:rdflib:bnode|iri|tlit:d3.3", "stmt", "stmt", dict(kinds=["bnode", "iri", "tlit"], tables=tables, nchoices=m.count_choices(["bnode", "iri", "tlit"]), integ="rdflib", rep=None), timeout=600, no_sample=True))
-    return us + eg + st + [twin(us[0])]
+    tb = [u for u in termbmc_units(tier, alphs=("dt",)) if u["params"]["integ"] == "rdflib"]
+    return us + eg + st + tb + [twin(us[0])]
 
 
 @prop("C03", functions=PIPE_FUNCS + RDF_FUNCS,
@@ -353,7 +354,7 @@ def c10(tier):
 @prop("C08", functions=["pyjelly/parse/ioutils.py:delimited_jelly_hint", "pyjelly/parse/ioutils.py:get_options_and_frames", "pyjelly/serialize/ioutils.py:write_delimited",
                         "pyjelly/serialize/ioutils.py:write_single", "pyjelly/serialize/encode.py:encode_options"],
       bounds={"quick": {"hint": "options message length and frame remainder symbolic in [0, 2^21), 0..2 leading empty frames, both modes; header built by a pure-Python varint model",
-                        "pair": "stream name length symbolic 0..12 (options row sweeps the 10-byte coincidences), table sizes {8,16,128}x{0,8}, generalized/rdf_star symbolic, 1-2 statements, both integrations"},
+                        "boundary": "stream name sized so that the first frame's length lands on / next to 127,128,129,16383,16384,16385 (symbolic choice), both modes", "pair": "stream name length symbolic 0..12 (options row sweeps the 10-byte coincidences), table sizes {8,16,128}x{0,8}, generalized/rdf_star symbolic, 1-2 statements, both integrations"},
               "thorough": {"pair": "stream name length 0..40, more table sizes"}},
       outside="streams whose first frame starts with metadata (excluded by the property's wording); lengths >= 2^21",
       explanation="L-HINT + H-PAIR", assumptions=["varint/tag framing model validated against google.protobuf.internal.encoder._VarintBytes on boundary lengths at every run"])
@@ -369,6 +370,8 @@ def c08(tier):
                 us.append(U(f"pair:{integ}:p{phys}:t{a}-{b}-{c}", "hint", "pair", dict(integ=integ, phys=phys, names=a, prefixes=b, datatypes=c, maxname=mx), timeout=300))
     for phys in (1, 2):
         us.append(U(f"pair:rdflib:p{phys}:stream-only", "hint", "pair", dict(integ="rdflib", phys=phys, names=8, prefixes=8, datatypes=8, maxname=4, rentry="graph_serialize_stream_only"), timeout=300))
+    for integ in ("generic", "rdflib"):
+        us.append(U(f"boundary:{integ}", "hint", "boundary", dict(integ=integ, phys=1), timeout=600))
     us.append(U("hint-seekable", "iosched", "seekable", dict(integ="generic", phys=1, K=3, fs=1), timeout=300))
     # detection must also be right when the header arrives in pieces (non-seekable source, short first reads)
     for delim, fs in ((True, 1), (False, 250)):
@@ -509,6 +512,9 @@ def c14(tier):
                     us.append(U(f"ns:{integ}:p{phys}:t{nm}-{pf}-{dt}:nb2:f{fx[0]}.{fx[1]}", "ns", "ns", dict(base, nb=2, fix1=list(fx)), timeout=600))
     for integ in ("generic", "rdflib"):
         us.append(U(f"ns_grouped:{integ}", "ns", "ns_grouped", dict(integ=integ), timeout=600))
+    for integ in ("generic", "rdflib"):
+        us.append(U(f"ns:{integ}:p1:aname0", "ns", "ns", dict(integ=integ, phys=1, names=8, prefixes=8, datatypes=8, entry="stream_frames_sink" if integ == "generic" else "graph_serialize",
+                    pentry="flat", reser=True, setcmp=(integ == "rdflib"), nb=1, aname0=True), timeout=600))
     for phys in (1, 2):
         us.append(U(f"ns:generic:p{phys}:nb3", "ns", "ns", dict(integ="generic", phys=phys, names=8, prefixes=8, datatypes=8, entry="stream_frames_sink", pentry="flat", reser=True, setcmp=False, nb=3), timeout=600))
     return us + [twin(us[1]), twin(us[-1])]
